@@ -244,8 +244,7 @@ int add_local_name (char *str, int type) {
 #ifdef NEOLITH_VERIF
       VERIF_CTRACE ("local.ident0", ihe->dn.local_num, ihe->sem_value);
 #endif
-      if (ihe->dn.local_num == -1)
-        ihe->sem_value++;
+      ihe->sem_value++; /* one reference per entry of locals[], dropped when the entry is */
 #ifdef NEOLITH_VERIF
       VERIF_CTRACE ("local.ident", max_num_locals, ihe->sem_value);
 #endif
